@@ -32,7 +32,7 @@ class Cov(np.ndarray):
         elif isinstance(frame, str) and frame not in ("TNW", "QSW"):
             frame = get_frame(frame)
 
-        buf = np.array(values)
+        buf = np.array(values, dtype=float)
 
         if buf.ndim != 2 or buf.shape[0] != buf.shape[1] or buf.shape[0] != 6:
             raise ValueError(
